@@ -660,6 +660,40 @@ def d1_carried_state(ck, mod):
               '"zero buffer = plain binning"' % (S, angles, i, hb, bw))
 
     # --- state writes only under "the exit test fired"
+    def step_shortcut(c, at):
+        """The atomic condition `c` (tested at statement `at` inside the frame
+        loop) is a STEP-SIZE test: a pure function of the angle series alone
+        that relates this frame's angle to the angle of another frame
+        (np.isclose(angles[i], angles[i - 1]), abs(angles[i] - angles[i - 1]) < eps,
+        ...) - other than the exact (in)equality `angles[i] == angles[i - 1]`,
+        the only such relation that implies 'still inside the widened basin'
+        (by induction the previous angle is inside it).  For any two distinct
+        angles some admitted boundary set / buffer puts a gate between them,
+        so no other function of the angles alone can stand in for the exit
+        test.  Returns the shown text, or None (not of that class: the caller
+        stays undecided)."""
+        from ..normal import is_pure
+        e = ast.Compare(left=c.lhs, ops=[c.op()], comparators=[c.rhs]) if isinstance(c, Cmp) else c[1]
+        try:
+            x = value_preserving(entry_expand(fi, e, at, stop=(i,), numbers=(bw,)), numbers=(bw,))
+        except Unresolved:
+            return None
+        if not is_pure(x) or not names_loaded(x) <= {angles, i, 'np', 'numpy', 'math', 'abs', 'float', 'min', 'max'}:
+            return None
+        frames, indexed = set(), set()
+        for n_ in ast.walk(x):
+            if isinstance(n_, ast.Subscript) and isinstance(n_.value, ast.Name) and n_.value.id == angles:
+                frames.add(u(canon(n_.slice)))
+                indexed.add(id(n_.value))
+        if any(isinstance(n_, ast.Name) and n_.id == angles and id(n_) not in indexed for n_ in ast.walk(x)):
+            return None                 # the series as a whole (len(angles), angles.shape): not a step test
+        if i not in frames or len(frames) < 2:
+            return None
+        if isinstance(x, ast.Compare) and len(x.ops) == 1 and isinstance(x.ops[0], (ast.Eq, ast.NotEq)) and \
+                {u(canon(x.left)), u(canon(x.comparators[0]))} == {u(canon(ast.parse(t, mode='eval').body)) for t in ('%s[%s]' % (angles, i), '%s[%s - 1]' % (angles, i))}:
+            return None
+        return '`%s` [= %s]' % (u(e), u(x))
+
     writes = assigns_to(loop, S)
     if not writes:
         ck.bad(rule + '.only-on-exit', mod, loop, F, 'no assignment to %s in the frame loop' % S,
@@ -667,7 +701,7 @@ def d1_carried_state(ck, mod):
     guarded = []
     for w in writes:
         fired = wrong = opaque = False
-        extra = []
+        extra, extra_at = [], []
         for n in governing(fi, w, inside=loop):
             cs = resolved_conjuncts(fi, n.test, n.polarity)
             if cs is None:
@@ -679,6 +713,17 @@ def d1_carried_state(ck, mod):
                     fired, wrong = fired or c[2], wrong or not c[2]
                 else:
                     extra.append(c)
+                    extra_at.append(n.owner)
+        # a condition besides the exit test that decides whether the state may change: a shortcut
+        # past the exit test (see step_shortcut) is a recognised wrong way round the machine
+        short = [k for k in (step_shortcut(c, at) for c, at in zip(extra, extra_at)) if k]
+        if short and not wrong:
+            ck.bad(rule + '.only-on-exit', mod, w, F, 'state update skipped by a step-size test',
+                   'whether `%s` may run also depends on %s - a comparison of this frame\'s angle with another frame\'s angle that never looks at '
+                   'the state, the boundaries or the buffer: a step that carries the angle over a gate of the current basin while this test '
+                   'says "not moved (enough)" never reaches is_buffered_transition, and the state stays in a basin whose widened range no '
+                   'longer contains the angle (only an exact equality with the previous frame\'s angle implies "no exit")' % (u(w), ' and '.join(short)[:200]))
+            continue
         if fired and not wrong and not extra and not opaque:
             guarded.append(w)
             ck.ok(rule + '.only-on-exit', mod, w, u(w), 'the state changes only when the buffered exit test fires')
